@@ -23,7 +23,7 @@ func init() {
 func c16() []*Ob {
 	searchStores := Callee("(*proxy/search.Ingestor).searchStores")
 	return []*Ob{
-		{Prop: "C16", ID: "C16.1", Engine: "ERRFLOW+ACK", Floor: 5,
+		{Prop: "C16", ID: "C16.1", Engine: "ERRFLOW+ACK", Floor: 3,
 			Desc: "every shard error is accounted: searchStores returns or collects each ShardResponse.Err, appends a QPR only under Err == nil, returns (qprs, nil) only when the de-duplicated errors are nil and wraps ErrPartialResponse when data and errors coexist; searchShard succeeds only with a replica's response and otherwise returns the collected errors",
 			Check: func(c *Ctx) {
 				fn := c.Fn("(*proxy/search.Ingestor).searchStores")
@@ -136,7 +136,7 @@ func c16() []*Ob {
 					}
 				}
 			}},
-		{Prop: "C16", ID: "C16.2", Engine: "PATHSIM(ACK)+SIBLING", Floor: 6,
+		{Prop: "C16", ID: "C16.2", Engine: "PATHSIM(ACK)+SIBLING", Floor: 3,
 			Desc: "the partial flag survives to the wire: Ingestor.Search never returns a nil error when its last searchStores attempt (hot or long-term tier) returned a non-nil error; doSearch maps ErrPartialResponse to ERROR_CODE_PARTIAL_RESPONSE; Search, ComplexSearch, GetAggregation and GetHistogram copy sResp.err into the response and set PartialResponse from it",
 			Check: func(c *Ctx) {
 				if fn := c.Fn("(*proxy/search.Ingestor).Search"); fn != nil {
@@ -237,7 +237,7 @@ func c16() []*Ob {
 					c.Violation("enum:searchShard:codes", fn.Pos(), "searchShard treats store answer code(s) %s as success: a refused request is merged as an empty, complete result", strings.Join(missing, ", "))
 				}
 			}},
-		{Prop: "C16", ID: "C16.4", Engine: "DOM", Floor: 2,
+		{Prop: "C16", ID: "C16.4", Engine: "DOM", Floor: 1,
 			Desc: "old data goes to the long-term tier: the second searchStores call takes config.ReadStores and is reached only under errors.Is(err, ErrIngestorQueryWantsOldData); the store answers WANTS_OLD_DATA only in hot mode, when mature and for a range earlier than its oldest fraction",
 			Check: func(c *Ctx) {
 				fn := c.Fn("(*proxy/search.Ingestor).Search")
@@ -279,7 +279,7 @@ func c16() []*Ob {
 					}
 				}
 			}},
-		{Prop: "C16", ID: "C16.5", Engine: "DOM+ORDER", Floor: 4,
+		{Prop: "C16", ID: "C16.5", Engine: "DOM+ORDER", Floor: 2,
 			Desc: "i-th document is the i-th id's: mergedStreamIterator.Next consumes exactly one id per non-EOF call, fast-forwards over every unexpected document in a loop, returns the buffered document only when currentID.Equal(nextDoc.IDSource()) and an empty document otherwise; the iterator's less function is built from the same ids it walks",
 			Check: func(c *Ctx) {
 				fn := c.Fn("(*proxy/search.mergedStreamIterator).Next")
